@@ -1,5 +1,6 @@
 import KojenVerif.Lemmas.EngineInner
 import KojenVerif.Lemmas.EngineUserPass
+import KojenVerif.Lemmas.EnginePgt
 /-
   Executable versions of the theorems' hypotheses, so that the driver can report, for every
   generated template and model, whether the case lies inside the domain the theorems cover.
